@@ -115,6 +115,7 @@ class G:
         self.counter = 0
         self.ret_ty = INT
         self.nest = 0
+        self.reuse = feat.get("reuse", 35)
 
     # -- helpers ---------------------------------------------------------
     def d(self, strat):
@@ -137,7 +138,7 @@ class G:
         reused (legal: disjoint scopes)."""
         vis = self.visible()
         pool = [n for n in self.names_in_func if n not in vis and n.startswith(prefix)]
-        if pool and self.chance(35):
+        if pool and self.chance(self.reuse):
             return self.pick(sorted(pool))
         while True:
             self.counter += 1
@@ -443,6 +444,8 @@ class G:
             flow = M.Break() if self.chance(45) else M.Continue()
             return M.If(self.cond(1), flow if self.chance(50) else M.Block([flow]), None)
 
+        if self.feat.get("storage", True) and self.chance(22):
+            stmts.extend(self.loop_local_aggregate())
         for k in range(n):
             if k == guard_at:
                 stmts.append(guard())
@@ -455,6 +458,41 @@ class G:
         self.pop()
         self.loop_depth -= 1
         return M.Block(stmts)
+
+    def loop_local_aggregate(self):
+        """an array / struct local declared in the loop body (so it must be fresh,
+        i.e. zero, in every iteration) that is read before it is written"""
+        out = []
+        if self.structs and self.chance(40):
+            sname = self.pick([s[0] for s in self.structs])
+            name = self.fresh("s")
+            ty = M.struct(sname)
+            self.declare(name, ty)
+            ft, fn = self.pick(self.struct_fields(sname))
+            place = M.Member(M.Var(name, ty), fn, ft)
+        else:
+            ety = self.pick([INT, INT, FLOAT])
+            size = self.d(st.integers(1, 3))
+            ty = M.arr(ety, (size,))
+            name = self.fresh("a")
+            self.declare(name, ty)
+            ft = ety
+            k = self.d(st.integers(0, size - 1))
+            place = M.Index(M.Var(name, ty), M.Lit(k, INT, str(k)), ety)
+        out.append(M.Decl(ty, name))
+        sinks = [p for p in self.scalar_places(ft, True) if p[0] == "var"]
+        if ft == INT:
+            sinks += []
+        else:
+            sinks = sinks or []
+        if sinks and self.chance(70):
+            sk = self.pick(sinks)
+            tgt = M.Var(sk[1], sk[2])
+            out.append(M.ExprStmt(M.Assign(tgt, "=", M.Bin("+", tgt, place))))
+        one = M.Lit(1, INT, "1") if ft == INT else M.Lit(1.5, FLOAT, "1.5")
+        import copy as _copy
+        out.append(M.ExprStmt(M.Assign(_copy.deepcopy(place), "=", M.Bin("+", _copy.deepcopy(place), one))))
+        return out
 
     def for_loop(self, depth):
         self.push()  # the for statement's scope
@@ -610,9 +648,9 @@ class G:
 
 
 @st.composite
-def core_case(draw, n_inputs=4):
+def core_case(draw, n_inputs=4, reuse=35):
     """C01: one exported function over the scalar core."""
-    g = G(draw, {"storage": True})
+    g = G(draw, {"storage": True, "reuse": reuse})
     # structs / globals
     if g.chance(45):
         nf = draw(st.integers(1, 3))
